@@ -114,7 +114,21 @@ func (c *Ctx) RuleUpd() []*Result {
 					return false
 				}
 				if f.Name() == "UpdateTo" {
-					if c.guardedByEdges(call, pred) {
+					guardedInCallers := func() bool {
+						n := 0
+						for _, e := range c.Graph().In[fn] {
+							cc := callCommon(e.Site)
+							if cc == nil || staticFn(cc) != fn {
+								continue
+							}
+							n++
+							if !c.guardedByEdges(e.Site, pred) {
+								return false
+							}
+						}
+						return n > 0
+					}
+					if c.guardedByEdges(call, pred) || guardedInCallers() {
 						guard.ok(gkey, pos, "the install call is only reached on the !LessOrEqual / GreaterThan side of a comparison with the running version")
 					} else {
 						guard.bad(gkey, pos, "the executable can be replaced although the detected release is not strictly newer than the running version (the guard is missing or uses LessThan/Equal, which let an equal version through)")
@@ -122,9 +136,12 @@ func (c *Ctx) RuleUpd() []*Result {
 				} else {
 					guard.ok(gkey, pos, f.Name()+" compares versions inside the library")
 				}
-			case f != nil && objPkgPath(f) == selfupdatePkg && (f.Name() == "DetectLatest" || f.Name() == "DetectVersion"):
+			case f != nil && (objPkgPath(f) == selfupdatePkg || call.Call.IsInvoke() && load.InModule(objPkgPath(f))) && (f.Name() == "DetectLatest" || f.Name() == "DetectVersion"):
 				api.Instances++
-				if recvNamed(f) != "Updater" {
+				if call.Call.IsInvoke() && load.InModule(objPkgPath(f)) {
+					// an interface of the repository in front of the updater: the implementation behind it is judged where it is built (UPD-VALIDATOR)
+					api.ok(fnName+":call "+qualName(f), pos, "detection goes through an interface of the repository; the value behind it is the configured *selfupdate.Updater (UPD-VALIDATOR)")
+				} else if recvNamed(f) != "Updater" {
 					api.bad(fnName+":call "+qualName(f), pos, "the release is detected through the package-level "+qualName(f)+", which uses the library's default updater: no validator is configured, so a release without (or with a wrong) checksum file is accepted")
 				} else {
 					api.ok(fnName+":call "+qualName(f), pos, "detection goes through the configured *selfupdate.Updater")
